@@ -14,7 +14,7 @@
 (*  (dulwich today = TRUE, FALSE; repaired = FALSE, TRUE)                  *)
 (*  Clocks = "any" | "mono" | "strict": which timestamp assignments        *)
 (*                                                                         *)
-(* What holds for dulwich as it is (cfgs written by the harness):            *)
+(* What holds for dulwich as it is (GraphMC_lcas/_ff/_walk.cfg):           *)
 (*   PaintSound, NoLostBase, Superset, NoFalsePositive, Bounded  any clock *)
 (*   Exact                                             strict clocks only  *)
 (*   WalkSound, WalkOnce, WalkComplete                           any clock *)
@@ -22,7 +22,9 @@
 (* and what does not (negative controls, TLC must find the counterexample; *)
 (* the harness replays it on the real functions):                          *)
 (*   Exact with Clocks = "any" (Mode lcas and ff), WalkExcludes with "any" *)
-(* With UseMinStamp = FALSE and Reduce = TRUE, Exact holds for any clock.  *)
+(* (GraphMC_neg_lcas/_neg_ff/_neg_walk.cfg).                               *)
+(* With UseMinStamp = FALSE and Reduce = TRUE, Exact holds for any clock   *)
+(* (GraphMC_repaired.cfg).                                                 *)
 (***************************************************************************)
 EXTENDS Graph
 
